@@ -48,7 +48,7 @@ theorem monitorCalls_ok : Facts.monitorCalls = [
   "internal/monitor.filteredMonitor.Log: Log",
   "internal/phase1.Alg.Process: Log",
   "internal/phase1.Alg.Process: PrefixFor",
-  "internal/phase2.Alg.Process: PrefixFor",
+  "internal/phase2.Alg.AssignLayers: PrefixFor",
   "internal/phase3.Alg.Process: Log",
   "internal/phase3.Alg.Process: PrefixFor",
   "internal/phase3.execWeightedMedian: Log",
